@@ -65,7 +65,7 @@ CatVals(vals, fx) ==
   IF vs = <<>> THEN Ok(NilXV)                                         \* only with the nil rule: every value was nil
   ELSE IF vs[1].x = "nil" THEN Fail("panic", NilXV)                   \* reflect.TypeOf(nil) = nil; reflect.SliceOf(nil) panics (:229-231)
   ELSE IF \E i \in 2..Len(vs) : vs[i].x # vs[1].x THEN Fail("err", NilXV)   \* "unexpected slice element type" (:235-239)
-  ELSE IF vs[1].x \in {"map", "imap"} THEN                            \* element kind map: recurse even for a single value (:152-153)
+  ELSE IF vs[1].x \in {"map", "imap", "smap"} THEN                           \* element kind map: recurse even for a single value (:152-153)
        LET r == CatMaps([i \in 1..Len(vs) |-> vs[i].m], fx) IN IF r.o = "ok" THEN Ok([MapXV(r.v) EXCEPT !.x = vs[1].x]) ELSE Fail(r.o, NilXV)
   ELSE IF Len(vs) = 1 THEN Ok(vs[1])                                  \* :171-173
   ELSE IF vs[1].x = "str" THEN Ok(StrXV(JoinS([i \in 1..Len(vs) |-> vs[i].s])))   \* concatStrings
@@ -205,7 +205,7 @@ ExpectMap(ms, r, elem, prefix) ==   \* per-key concatenation of map chunks; keys
        LET all == LET idx == SelectSeq([i \in 1..Len(ms) |-> i], LAMBDA i : k \in KeysOf(ms[i])) IN [q \in 1..Len(idx) |-> ValOf(ms[idx[q]], k)]
            vals == all
            rv == ValOf(r, k)
-       IN IF \E i \in 1..Len(vals) : vals[i].x \notin {"str", "int", "bool", "min", "map", "imap"} \/ vals[i].x # vals[1].x THEN TRUE
+       IN IF \E i \in 1..Len(vals) : vals[i].x \notin {"str", "int", "bool", "min", "map", "imap", "smap"} \/ vals[i].x # vals[1].x THEN TRUE
           ELSE IF vals[1].x = "str" THEN rv = StrXV(JoinS([i \in 1..Len(vals) |-> vals[i].s]))   \* text keeps arrival order
           ELSE IF vals[1].x \in {"int", "bool", "min"} THEN
                /\ rv.x = vals[1].x
@@ -224,16 +224,38 @@ ElemOf(kind, cs, fx) ==
   ELSE IF kind \in {"map", "msg"} THEN
        LET ms == IF kind = "map" THEN [i \in 1..Len(cs) |-> cs[i].kv] ELSE SelectSeq([i \in 1..Len(cs) |-> cs[i].extra], LAMBDA e : e # <<>>)
            outer == SortedKeys(UNION {KeysOf(ms[i]) : i \in 1..Len(ms)})
-           inner(k) == LET idx == SelectSeq([i \in 1..Len(ms) |-> i], LAMBDA i : k \in KeysOf(ms[i]) /\ ValOf(ms[i], k).x = "imap")
-                       IN ElemOfMaps([q \in 1..Len(idx) |-> ValOf(ms[idx[q]], k).m], fx, k \o "/")
+           typed(k) == SelectSeq([i \in 1..Len(ms) |-> i], LAMBDA i : k \in KeysOf(ms[i]) /\ ValOf(ms[i], k).x \in {"imap", "smap"})
+           inner(k) == LET idx == SelectSeq(typed(k), LAMBDA i : ValOf(ms[i], k).x = "imap")
+                       IN (IF Len(typed(k)) > 0 /\ \A i \in RangeS(typed(k)) : ValOf(ms[i], k).x = ValOf(ms[typed(k)[1]], k).x
+                           THEN <<[p |-> k, o |-> CatVals([q \in 1..Len(typed(k)) |-> ValOf(ms[typed(k)[q]], k)], fx).o, n |-> 0]>> ELSE <<>>)   \* the typed maps themselves
+                          \o ElemOfMaps([q \in 1..Len(idx) |-> ValOf(ms[idx[q]], k).m], fx, k \o "/")
        IN IF Len(outer) = 0 THEN <<>> ELSE FlattenSeq([j \in 1..Len(outer) |-> inner(outer[j])])
   ELSE <<>>
+(* A map of concatenable things is concatenable: when, under every key, the values (nil ones aside) have one dynamic type and  *)
+(* that type's own concatenation of them succeeds -- strings, numbers; nested map[string]any recursively; a nested map of      *)
+(* another static type (imap, smap) as observed in elem under p = key -- the map concatenation must not fail.                   *)
+HasNilXV(m) == \E i \in 1..Len(m) : m[i].v.x = "nil" \/ \E j \in 1..Len(m[i].v.m) : m[i].v.m[j].v.x = "nil"
+RECURSIVE Concatenable(_, _, _)
+Concatenable(ms, elem, top) ==
+  \A k \in UNION {KeysOf(ms[i]) : i \in 1..Len(ms)} :
+     LET idx == SelectSeq([i \in 1..Len(ms) |-> i], LAMBDA i : k \in KeysOf(ms[i]) /\ ValOf(ms[i], k).x # "nil")
+         vals == [q \in 1..Len(idx) |-> ValOf(ms[idx[q]], k)]
+     IN vals = <<>> \/
+        /\ \A i \in 1..Len(vals) : vals[i].x = vals[1].x
+        /\ CASE vals[1].x \in {"str", "int", "bool", "min"} -> TRUE
+              [] vals[1].x = "map" -> Concatenable([i \in 1..Len(vals) |-> vals[i].m], elem, FALSE)
+              [] vals[1].x \in {"imap", "smap"} -> top /\ HasElem(elem, k) /\ ElemAt(elem, k).o = "ok"
+              [] OTHER -> FALSE
 MsgConflict(cs) == \/ \E i \in 1..Len(cs) : cs[i].nil
                    \/ Conflict([i \in 1..Len(cs) |-> cs[i].role]) \/ Conflict([i \in 1..Len(cs) |-> cs[i].name]) \/ Conflict([i \in 1..Len(cs) |-> cs[i].tcid])
 (* "" when the outcome o of concatenating cs satisfies every clause, else the name of the first clause it breaks *)
 WhyMsg(cs, o, elem) ==
   IF MsgConflict(cs) THEN (IF o.o = "ok" THEN "conflicting-role-name-or-id-accepted" ELSE "")   \* "returns an error if the messages have different roles or names"
-  ELSE IF o.o # "ok" THEN ""
+  ELSE IF o.o # "ok" THEN
+       (LET calls == FlattenSeq([i \in 1..Len(cs) |-> cs[i].calls])
+            ex == SelectSeq([i \in 1..Len(cs) |-> cs[i].extra], LAMBDA e : e # <<>>)
+        IN IF (\A ix \in IdxSet(calls) : ~GroupConflict(Group(calls, ix))) /\ ~(\E i \in 1..Len(ex) : HasNilXV(ex[i])) /\ Concatenable(ex, elem, TRUE)
+           THEN "refuses-what-its-parts-accept" ELSE "")
   ELSE
     LET r == o.v
         calls == FlattenSeq([i \in 1..Len(cs) |-> cs[i].calls])
@@ -255,13 +277,14 @@ WhyMsg(cs, o, elem) ==
 Why(kind, cs, o, elem) ==
   CASE kind = "msg" -> WhyMsg(cs, o, elem)
     [] kind \in MapKinds -> IF o.o = "ok" /\ ~ExpectMap([i \in 1..Len(cs) |-> cs[i].kv], o.v.kv, elem, "") THEN "map-not-merged-per-key"
-                            ELSE IF o.o = "ok" /\ \E e \in RangeS(elem) : e.o # "ok" THEN "map-accepted-what-its-elements-refuse" ELSE ""
+                            ELSE IF o.o = "ok" /\ \E e \in RangeS(elem) : e.o # "ok" THEN "map-accepted-what-its-elements-refuse"
+                            ELSE IF o.o = "err" /\ ~(\E i \in 1..Len(cs) : HasNilXV(cs[i].kv)) /\ Concatenable([i \in 1..Len(cs) |-> cs[i].kv], elem, TRUE)
+                            THEN "refuses-what-its-parts-accept" ELSE ""
     [] kind = "str" -> IF o.o # "ok" \/ o.v.s # JoinS([i \in 1..Len(cs) |-> cs[i].s]) THEN "text-not-in-arrival-order" ELSE ""
     [] kind = "list" -> IF (\E i \in 1..Len(cs) : Len(cs[i].items) # Len(cs[1].items)) /\ o.o = "ok" THEN "list-length-mismatch-accepted" ELSE ""
     [] OTHER -> ""
 Expect(kind, cs, o, elem) == Why(kind, cs, o, elem) = ""
 
-HasNilXV(m) == \E i \in 1..Len(m) : m[i].v.x = "nil" \/ \E j \in 1..Len(m[i].v.m) : m[i].v.m[j].v.x = "nil"
 HasNilValue(kind, cs) ==
   CASE kind = "msg" -> \E i \in 1..Len(cs) : HasNilXV(cs[i].extra)
     [] kind = "list" -> \E i \in 1..Len(cs) : \E p \in 1..Len(cs[i].items) : HasNilXV(cs[i].items[p].extra)
